@@ -173,6 +173,30 @@ def _registry():
     rel = "crates/snap/snap-control/src/server/identity_registry.rs"
     t = src(rel)
     need(t, r"fn is_authorized\(&self, now: Instant\) -> bool \{\s*self\.expires_at > now\s*\}", "is_authorized: expires_at > now (strict)", rel)
+    # the statements of add_identity / clean_expired / is_authorized the model transcribes
+    need(t, r"self\.sessions\s*\.get\(ident\)\s*\.filter\(\|session\| session\.is_authorized\(now\)\)", "state.is_authorized: sessions.get(ident).filter(is_authorized)", rel)
+    need(t, r"let was_new = !self\.sessions\.contains_key\(&identity\);", "add_identity: was_new", rel)
+    need(t, r"if let Some\(prev_identity\) = self\.associations\.insert\(key\.clone\(\), identity\)\s*&& prev_identity != identity\s*\{\s*self\.sessions\.remove\(&prev_identity\);\s*\}", "add_identity: superseded identity loses its session", rel)
+    need(t, r"self\.associations\.retain\(\|existing_key, existing_identity\| \{\s*\*existing_identity != identity \|\| existing_key == &key\s*\}\);", "add_identity: one key per identity (retain)", rel)
+    need(t, r"self\.sessions\s*\.insert\(identity, IdentityRegistration::new\(expiry\)\);", "add_identity: sessions.insert", rel)
+    need(t, r"\.filter_map\(\|\(identity, session\)\| \(!session\.is_authorized\(now\)\)\.then_some\(\*identity\)\)", "clean_expired: expired = !is_authorized(now)", rel)
+    need(t, r"for identity in expired \{\s*self\.sessions\.remove\(&identity\);\s*self\.associations\s*\.retain\(\|_, registered_identity\| \*registered_identity != identity\);", "clean_expired: removes session and associations", rel)
+    need(t, r"res = state\.add_identity\(key, ident, now \+ lifetime\);", "register: expiry = now + lifetime", rel)
+    # the authorisation checks of the tunnel server and what the gateway forwards
+    srel = "crates/snap/snap-tun/src/server.rs"
+    st = src(srel)
+    need(st, r"\(Entry::Occupied\(mut occupied_entry\), p\) => \{\s*let active_tunnel = occupied_entry\.get_mut\(\);.*?let Some\(session_data\) = self\s*\.authz\s*\.is_authorized\(packet_now, active_tunnel\.peer_static\.as_bytes\(\)\)\s*else \{.*?return HandleIncomingPacketResult::Result \{\s*result: TunnResult::Err\(WireGuardError::UnexpectedPacket\),", "incoming, existing tunnel: authorisation of the tunnel's peer_static before the packet reaches the tunnel", srel, re.S)
+    need(st, r"\(e, WgKind::HandshakeInit\(wg_init\)\) => \{.*?let Some\(session_data\) = self\s*\.authz\s*\.is_authorized\(packet_now, &peer\.peer_static_public\)\s*else \{.*?let peer_static = x25519::PublicKey::from\(peer\.peer_static_public\);\s*let mut tunn = Tunn::new\(\s*self\.static_private\.clone\(\),\s*peer_static,", "incoming, new tunnel: authorisation of the handshake's static key, tunnel created for that key", srel, re.S)
+    need(st, r"\(_, _p\) => \{.*?result: TunnResult::Err\(WireGuardError::InvalidPacket\),", "incoming, no tunnel and not a handshake init: InvalidPacket", srel, re.S)
+    need(st, r"let Some\(active_tunnel\) = self\.active_tunnels\.get_mut\(&to\) else \{.*?return None;\s*\};\s*let packet_now = Instant::now\(\);\s*let Some\(session_data\) = self\s*\.authz\s*\.is_authorized\(packet_now, active_tunnel\.peer_static\.as_bytes\(\)\)\s*else \{.*?return None;\s*\};", "outgoing: tunnel lookup then authorisation of its peer_static", srel, re.S)
+    need(st, r"TunnResult::WriteToTunnel\(p\) if p\.is_empty\(\) => TunnResult::Done,", "keepalive is not forwarded", srel)
+    need(st, r"for p in tunn\.get_queued_packets\(\) \{\s*q\.push_back\(p\);", "queued outbound packets are drained while handling an incoming packet", srel)
+    need(st, r"TunnResult::WriteToTunnel\(packet\) => \{\s*HandleIncomingPacketResult::Forwarded \{", "Forwarded = WriteToTunnel", srel)
+    need(st, r"self\.active_tunnels\.retain\(\|k, active_tunnel\| \{.*?!active_tunnel\.tunn\.is_expired\(\)\s*\}\);", "update_timers: retain non-expired tunnels", srel, re.S)
+    grel = "crates/snap/snap-dataplane/src/tunnel_gateway/gateway.rs"
+    gt = src(grel)
+    need(gt, r"HandleIncomingPacketResult::Forwarded \{\s*packet,\s*processed_at,\s*session_data,\s*\} => \{\s*match inbound_datagram_check\(&packet\[\.\.\], from\.ip\(\)\)", "gateway dispatches only Forwarded results", grel)
+    need(gt, r"let handled = snaptun_srv\.handle_outgoing_packet_with_session\(packet, target\)\?;", "gateway sends only what handle_outgoing_packet_with_session admits", grel)
     body = """From Coq Require Import NArith.
 Local Open Scope N_scope.
 (* identity_registry.rs: IdentityRegistration::is_authorized is `expires_at > now` *)
